@@ -303,8 +303,11 @@ theorem structInv_handleRestart (s : Sys) (self : Cid) (hi : StructInv s) : Stru
       apply structInv_upd _ self _ _ _ h1
       · intro hk; simp at hk
       · intro hr; simp at hr
-    exact structInv_sameS (((sameS_tell _ _ _ _ _).trans
-      (sameS_upd _ self (fun x => { x with paused := false }) (fun _ => rfl))).trans (sameS_say _ _)) h2
+    split
+    · apply structInv_execRecover
+      exact structInv_sameS ((sameS_upd _ self (fun x => { x with paused := false }) (fun _ => rfl)).trans (sameS_say _ _)) h2
+    · exact structInv_sameS (((sameS_tell _ _ _ _ _).trans
+        (sameS_upd _ self (fun x => { x with paused := false }) (fun _ => rfl))).trans (sameS_say _ _)) h2
 
 theorem structInv_onKilled (s : Sys) (self : Cid) (beh : Nat) (cur : Env) (who : Cid) (hi : StructInv s) :
     StructInv (onKilled s self beh cur who) := by
